@@ -17,8 +17,9 @@ structure GoodLine (limit : Nat) (x : List Char) : Prop where
   /-- within the column limit with room for the line end (a line of exactly `limit` columns gets a
       `LineOverRunWarning` and its `\n` cut off) -/
   fits : x.length < limit
-  /-- no `#` in columns 1-5 outside a comment line (the code raises `UnsupportedFeature`: vertical format) -/
-  noVertical : (x.take Gen.blankSpaceContinue).contains '#' = true → Spec.isCommentLine x = true
+  /-- the line does not begin, within columns 1-5, with a `#` (the code raises `UnsupportedFeature`: vertical
+      format, which is outside the Spec; since fix 453a5e4 a `#` elsewhere in columns 1-5 is plain data) -/
+  noVertical : hashFirst x = false
   /-- in a data line: no `&` directly in front of a `$` comment (MCNP: continuation; the code: none) -/
   noAmpDollar : Spec.isCommentLine x = false → NoAmpBeforeDollar x
   /-- a line that is neither blank nor a comment line carries a word (no line holding only `$ …` or only `&`) -/
@@ -123,11 +124,8 @@ theorem stepLine_good (cfg : Cfg) (st : LState) (x t : List Char) (g : GoodLine 
       unfold stepData
       split
       · rfl
-      · rw [hash_agree x t ht]
-        have hno : ((x.take Gen.blankSpaceContinue).contains '#' && !Spec.isCommentLine x) = false := by
-          cases hh : (x.take Gen.blankSpaceContinue).contains '#'
-          · rfl
-          · simp [g.noVertical hh]
+      · rw [hash_agree x t g.onlyBlanks ht]
+        have hno : (hashFirst x && !Spec.isCommentLine x) = false := by rw [g.noVertical]; rfl
         simp only [hno, Bool.false_eq_true, ↓reduceIte, take_limit x t ht cfg.lineLength g.fits,
           rstrip_agree x t g.onlyBlanks ht]
         cases hcm : Spec.isCommentLine x
@@ -423,14 +421,6 @@ theorem flushInput_good {limit : Nat} (cfg : Cfg) (bt : BlockType) (raw : List S
       | _ :: _ :: _ :: _ => simp [proj, projEv, hasRaise, Event.isRaise, isErr]
 
 /-! ## the simulation -/
-
-/-- the Spec never meets a data line behind the blank line that ended the data block
-    (the code reads such lines as further data: known finding C11-F1) -/
-def wellTerminated : Nat → List Spec.Kind → Bool
-  | _, [] => true
-  | b, .blank :: ks => wellTerminated (if b ≥ 3 then b else b + 1) ks
-  | b, .comment :: ks => wellTerminated b ks
-  | b, .data _ _ _ :: ks => decide (b < 3) && wellTerminated b ks
 
 /-- model state `st` and Spec state `s` describe the same point of the same file -/
 structure Rel (limit : Nat) (cfg : Cfg) (st : LState) (s : Spec.St) : Prop where
@@ -739,47 +729,33 @@ theorem step_rel {limit : Nat} (cfg : Cfg) (hl : cfg.lineLength = limit) (st : L
     rw [hk]
     exact step_blank cfg hl st s R x t g ht hb
 
-theorem wellTerminated_cons (b : Nat) (k : Spec.Kind) (ks : List Spec.Kind) (h : wellTerminated b (k :: ks) = true) :
-    (∀ col ws amp, k = .data col ws amp → b < 3) ∧ wellTerminated (Spec.step ⟨b, none, false⟩ k).2.block ks = true := by
-  cases k with
-  | blank =>
-    refine ⟨fun _ _ _ e => by simp at e, ?_⟩
-    simp only [wellTerminated] at h
-    unfold Spec.step
-    by_cases hb : b ≥ 3
-    · simp only [hb, ↓reduceIte] at h ⊢; exact h
-    · simp only [hb, ↓reduceIte] at h ⊢; exact h
-  | comment =>
-    refine ⟨fun _ _ _ e => by simp at e, ?_⟩
-    simp only [wellTerminated] at h
-    unfold Spec.step
-    by_cases hb : b ≥ 3 <;> simp_all
-  | data col ws amp =>
-    simp only [wellTerminated, Bool.and_eq_true, decide_eq_true_eq] at h
-    refine ⟨fun _ _ _ _ => h.1, ?_⟩
-    unfold Spec.step
-    have : ¬ b ≥ 3 := by omega
-    simp [this, h.2]
-
-theorem step_block (s : Spec.St) (k : Spec.Kind) :
-    (Spec.step s k).2.block = (Spec.step ⟨s.block, none, false⟩ k).2.block := by
+theorem step_keeps_block (s : Spec.St) (k : Spec.Kind) (hk : k ≠ .blank) : (Spec.step s k).2.block = s.block := by
   unfold Spec.step
   by_cases hb : s.block ≥ 3
   · simp [hb]
   · simp only [hb, ↓reduceIte]
     cases k with
-    | blank => rfl
+    | blank => exact absurd rfl hk
     | comment => rfl
     | data col ws amp =>
       cases s.cur with
       | none => rfl
       | some cw => simp only; split <;> rfl
 
-/-- **the simulation**: all the lines of a file -/
+/-- behind the blank line that ends the data block the Spec reads nothing -/
+theorem run_done (s : Spec.St) (hb : s.block ≥ 3) (hc : s.cur = none) (ks : List Spec.Kind) : Spec.run s ks = [] := by
+  induction ks with
+  | nil => simp [Spec.run, Spec.close, hc]
+  | cons k ks ih =>
+    have : Spec.step s k = ([], s) := by unfold Spec.step; simp [hb]
+    simp only [Spec.run, this, List.nil_append]
+    exact ih
+
+/-- **the simulation**: all the lines of a file.  No hypothesis about what follows the blank line that ends the
+    data block: the code stops reading there (fixes c74af97, fec410e) and the Spec ignores the rest. -/
 theorem sim {limit : Nat} (cfg : Cfg) (hl : cfg.lineLength = limit) (ms : List (List Char × List Char)) :
-    ∀ (st : LState) (s : Spec.St), Rel limit cfg st s →
+    ∀ (st : LState) (s : Spec.St), Rel limit cfg st s → s.block < 3 →
       (∀ p ∈ ms, GoodLine limit p.1 ∧ IsTerm p.2) →
-      wellTerminated s.block (ms.map (fun p => Spec.classifyPhysical p.1)) = true →
       proj (goLines cfg st (ms.map (fun p => p.1 ++ p.2))) =
         Spec.cutS ((Spec.run s (ms.map (fun p => Spec.classifyPhysical p.1))).map (O cfg)) := by
   induction ms with
@@ -801,19 +777,60 @@ theorem sim {limit : Nat} (cfg : Cfg) (hl : cfg.lineLength = limit) (ms : List (
       subst this
       rw [cutS_cons]; split <;> rfl
   | cons p ms ih =>
-    intro st s R hgood hwt
+    intro st s R hlt hgood
     obtain ⟨g, ht⟩ := hgood p (by simp)
-    simp only [List.map_cons] at hwt ⊢
-    obtain ⟨hdata, hwt'⟩ := wellTerminated_cons _ _ _ hwt
-    have hstep := step_rel cfg hl st s R p.1 p.2 g ht hdata
+    simp only [List.map_cons]
+    have hstep := step_rel cfg hl st s R p.1 p.2 g ht (fun _ _ _ _ => hlt)
     obtain ⟨hproj, hraise, hlen, hrel⟩ := hstep
     simp only [goLines, Spec.run, List.map_append]
     cases hr : hasRaise (stepLine cfg st (p.1 ++ p.2)).1
     · simp only [Bool.false_eq_true, ↓reduceIte]
-      rw [proj_append, hproj, cutS_append_noErr _ _ (by rw [← hraise]; exact hr)]
-      congr 1
-      apply ih _ _ (hrel hr) (fun q hq => hgood q (List.mem_cons_of_mem _ hq))
-      rw [step_block]; exact hwt'
+      have R' := hrel hr
+      have hnoerr : ((Spec.step s (Spec.classifyPhysical p.1)).1.map (O cfg)).any isErr = false := by
+        rw [← hraise]; exact hr
+      cases hstop : stopsAfter cfg (p.1 ++ p.2) (stepLine cfg st (p.1 ++ p.2)).2
+      · -- the loop goes on: the Spec is still in front of the end of the data block
+        simp only [Bool.false_eq_true, ↓reduceIte]
+        rw [proj_append, hproj, cutS_append_noErr _ _ hnoerr]
+        congr 1
+        apply ih _ _ R' _ (fun q hq => hgood q (List.mem_cons_of_mem _ hq))
+        by_cases hge : (Spec.step s (Spec.classifyPhysical p.1)).2.block ≥ 3
+        · exfalso
+          have hcnt := (R'.blockGe hge).1
+          have hkb : Spec.classifyPhysical p.1 = .blank := by
+            by_cases hk : Spec.classifyPhysical p.1 = .blank
+            · exact hk
+            · rw [step_keeps_block s _ hk] at hge; omega
+          have hbl : Spec.isBlankLine p.1 = true := by
+            have := kind_good g
+            cases hb : Spec.isBlankLine p.1
+            · rw [hb] at this
+              simp only [Bool.false_eq_true, ↓reduceIte] at this
+              rw [this] at hkb
+              split at hkb <;> simp at hkb
+            · rfl
+          unfold stopsAfter at hstop
+          rw [expandtabs_good p.1 p.2 g.onlyBlanks ht, blank_agree p.1 p.2 g.onlyBlanks ht, hbl] at hstop
+          simp only [Bool.true_and, decide_eq_false_iff_not] at hstop
+          exact hstop hcnt
+        · omega
+      · -- `break`: the blank line that ends the data block
+        simp only [↓reduceIte]
+        unfold stopsAfter at hstop
+        simp only [Bool.and_eq_true, decide_eq_true_eq] at hstop
+        have hge : (Spec.step s (Spec.classifyPhysical p.1)).2.block ≥ 3 := by
+          by_cases h : (Spec.step s (Spec.classifyPhysical p.1)).2.block < 3
+          · have := (R'.blockLt h).1; omega
+          · omega
+        have hcur := (R'.blockGe hge).2
+        have hfl := flush_rel cfg _ _ R'
+        have hclose : Spec.close (Spec.step s (Spec.classifyPhysical p.1)).2 = [] := by
+          unfold Spec.close; rw [hcur]
+        rw [hclose] at hfl
+        rw [proj_append, hproj, hfl.1, run_done _ hge hcur, List.map_nil, List.append_nil]
+        have := cutS_append_noErr _ [] hnoerr
+        simp only [List.append_nil, Spec.cutS] at this
+        exact this.symm
     · simp only [↓reduceIte]
       rw [hproj, cutS_short _ _ (by simpa using hlen) (by rw [← hraise]; exact hr)]
 
@@ -825,12 +842,13 @@ theorem rel_init {limit : Nat} (cfg : Cfg) : Rel limit cfg (initState cfg) ⟨cf
   · intro _; exact ⟨rfl, fun r hr => by simp [initState] at hr⟩
   · intro ws h; simp at h
 
+theorem firstBlock_lt (cfg : Cfg) : cfg.firstBlock.value < 3 := by cases cfg.firstBlock <;> decide
+
 /-- **per file**: `read_data` on the lines of a file, seen through `proj`, is the Spec's stream of the file -/
 theorem readData_refines {limit : Nat} (cfg : Cfg) (hl : cfg.lineLength = limit) (ms : List (List Char × List Char))
-    (hgood : ∀ p ∈ ms, GoodLine limit p.1 ∧ IsTerm p.2)
-    (hwt : wellTerminated cfg.firstBlock.value (ms.map (fun p => Spec.classifyPhysical p.1)) = true) :
+    (hgood : ∀ p ∈ ms, GoodLine limit p.1 ∧ IsTerm p.2) :
     proj (readData cfg (ms.map (fun p => p.1 ++ p.2))) =
       Spec.cutS ((Spec.run ⟨cfg.firstBlock.value, none, false⟩ (ms.map (fun p => Spec.classifyPhysical p.1))).map (O cfg)) :=
-  sim cfg hl ms _ _ (rel_init cfg) hgood hwt
+  sim cfg hl ms _ _ (rel_init cfg) (firstBlock_lt cfg) hgood
 
 end MontePyVerif.Refine
